@@ -340,5 +340,5 @@ if __name__ == '__main__':
                                            '--log'):
         MODE = sys.argv[1][2:]
         del sys.argv[1]
-    ps = sys.argv[1:] or ['C%02d' % i for i in range(1, 21) if i != 10]
+    ps = sys.argv[1:] or ['C%02d' % i for i in range(1, 21)]
     sys.exit(main(ps))
